@@ -1602,7 +1602,9 @@ class FuncRun:
         cenv = env.copy()
         for g in e.generators:
             it = self.ev(g.iter, cenv)
-            self.bind_target(g.target, self.iter_elem(it), cenv, e, g.iter)
+            el = self.iter_elem(it)
+            # like a for statement: what an element is depends on what is iterated over
+            self.bind_target(g.target, el.with_deps(el.deps | it.deps), cenv, e, g.iter)
             for cond in g.ifs:
                 self.ev(cond, cenv)
                 t, _f = self.narrow(cond, cenv)
